@@ -153,6 +153,7 @@ func TestC05_Cache(t *testing.T) {
 			asciiOnly(gen.TextOf(tok, 6, 8).Draw(t, "q3")),
 			asciiOnly("find " + tok.Draw(t, "q4w") + " files"),
 			asciiOnly(tok.Draw(t, "q5w")[:2]),
+			rapid.SampledFrom([]string{" ", "  ", "\t", " \t "}).Draw(t, "q6-blank"), // blank, not empty: the typo fallback still matches blanks
 		}
 		opts := c05Options(t, toks)
 		var bigIdx []int
